@@ -577,9 +577,14 @@ def run_check(prop, tier, seed, replay=None):
         'wall_s': round(wall, 2),
         'violations': len(violations),
     }
+    # evidence/ describes runs against /repo itself; a run against a scratch copy (VERIF_REPO, used to try seeded
+    # changes and candidate fixes) leaves it alone and writes under .work/
+    evdir = os.path.join(VERIF, 'evidence')
+    if os.path.realpath(os.environ.get('VERIF_REPO', '/repo')) != os.path.realpath('/repo'):
+        evdir = os.path.join(VERIF, '.work', 'evidence-scratch')
     if not replay:
-        os.makedirs(os.path.join(VERIF, 'evidence'), exist_ok=True)
-        with open(os.path.join(VERIF, 'evidence', prop + '.json'), 'w') as fh:
+        os.makedirs(evdir, exist_ok=True)
+        with open(os.path.join(evdir, prop + '.json'), 'w') as fh:
             json.dump(ev, fh, indent=1)
     shutil.rmtree(work, ignore_errors=True)
     for path, suffix in violations:
